@@ -321,6 +321,119 @@ CONTRACTS = [
       raises={"ValueError": "(order is not None and size is not None) or node not in V(hg)"},
       # the number of distinct (filtered) hyperedges containing the node, in either role
       ensures={"result": "result == card({k for k in E(hg) if (node in fst(k) or node in snd(k)) and sel(hg, k, order, size, False)})"}),
+    # ------------------------------------------------------------------ construction, batched forms, counting queries
+    C("__init__",
+      params={"edge_list": "None", "weighted": "Bool", "weights": "None", "hypergraph_metadata": "Opt[Meta]",
+              "node_metadata": "None", "edge_metadata": "None"},
+      fixed={"edge_list": None, "weights": None, "node_metadata": None, "edge_metadata": None},
+      modifies=list(FIELDS),
+      ensures={"wf": "wf(self)", "V": "all(n not in V(self) for n in Node)", "E": "all(k not in E(self) for k in Key)",
+               "weighted": "weighted(self) == weighted"}),
+    C("add_nodes", params={"node_list": "Bag[Int]"},
+      requires={"wf": "wf(self)"},
+      modifies=["_adj_source", "_adj_target", "_node_metadata"],
+      ensures={"wf": "wf(self)",
+               "V": "all((n in V(self)) == (n in V(old(self)) or count(node_list, n) >= 1) for n in Node)",
+               "E": "E(self) == E(old(self))",
+               "NM_kept": "all(NM(self, n) == NM(old(self), n) for n in V(old(self)))",
+               "NM_new": "all(implies(n not in V(old(self)), NM(self, n) == EMPTY) for n in node_list)"},
+      invariants={0: {
+          "wf": "wf(self)",
+          "V": "all((n in V(self)) == (n in V(old(self)) or count(_done0, n) >= 1) for n in Node)",
+          "NM_kept": "all(NM(self, n) == NM(old(self), n) for n in V(old(self)))",
+          "NM_new": "all(implies(n not in V(old(self)), NM(self, n) == EMPTY) for n in _done0)"}}),
+    C("remove_edges", params={"edge_list": "Bag[Key]"},
+      requires={"wf": "wf(self)",
+                "stored": "all(strict(fst(e)) and strict(snd(e)) and e in E(self) and count(edge_list, e) == 1 for e in edge_list)"},
+      modifies=["_adj_source", "_adj_target", "_edge_list", "_reverse_edge_list", "_weights", "_edge_metadata"],
+      ensures={"wf": "wf(self)", "V": "V(self) == V(old(self))",
+               "E": "all((k in E(self)) == (k in E(old(self)) and count(edge_list, k) == 0) for k in Key)",
+               "W_kept": "all(W(self, k) == W(old(self), k) for k in E(self))",
+               "M_kept": "all(M(self, k) == M(old(self), k) for k in E(self))",
+               **NODE_MD_KEPT, **SAME_WEIGHTED},
+      invariants={0: {
+          "wf": "wf(self)", "V": "V(self) == V(old(self))",
+          "E": "all((k in E(self)) == (k in E(old(self)) and count(_done0, k) == 0) for k in Key)",
+          "W_kept": "all(W(self, k) == W(old(self), k) for k in E(self))",
+          "M_kept": "all(M(self, k) == M(old(self), k) for k in E(self))",
+          "NM_kept": "all(NM(self, n) == NM(old(self), n) for n in V(old(self)))",
+          "weighted": "weighted(self) == weighted(old(self))", "HM": "HM(self) == HM(old(self))"}}),
+    C("remove_nodes", params={"node_list": "Bag[Int]", "keep_edges": "Bool"}, fixed={"keep_edges": False},
+      requires={"wf": "wf(self)", "present": "all(n in V(self) and count(node_list, n) == 1 for n in node_list)"},
+      modifies=["_adj_source", "_adj_target", "_node_metadata", "_edge_list", "_reverse_edge_list", "_weights", "_edge_metadata"],
+      ensures={"wf": "wf(self)",
+               "V": "all((n in V(self)) == (n in V(old(self)) and count(node_list, n) == 0) for n in Node)",
+               "E": "all((k in E(self)) == (k in E(old(self)) and all(count(node_list, n) == 0 for n in fst(k)) and all(count(node_list, n) == 0 for n in snd(k))) for k in Key)",
+               "W_kept": "all(W(self, k) == W(old(self), k) for k in E(self))",
+               "M_kept": "all(M(self, k) == M(old(self), k) for k in E(self))",
+               "NM_kept": "all(NM(self, n) == NM(old(self), n) for n in V(self))", **SAME_WEIGHTED},
+      invariants={0: {
+          "wf": "wf(self)",
+          "V": "all((n in V(self)) == (n in V(old(self)) and count(_done0, n) == 0) for n in Node)",
+          "E": "all((k in E(self)) == (k in E(old(self)) and all(count(_done0, n) == 0 for n in fst(k)) and all(count(_done0, n) == 0 for n in snd(k))) for k in Key)",
+          "W_kept": "all(W(self, k) == W(old(self), k) for k in E(self))",
+          "M_kept": "all(M(self, k) == M(old(self), k) for k in E(self))",
+          "NM_kept": "all(NM(self, n) == NM(old(self), n) for n in V(self))",
+          "weighted": "weighted(self) == weighted(old(self))", "HM": "HM(self) == HM(old(self))"}}),
+    C("num_nodes", params={}, result="Int", pure=True, ensures={"result": "result == card(V(self))"}),
+    C("num_edges", params={}, result="Int", pure=True, ensures={"result": "result == card(E(self))"}),
+    C("get_sizes", params={}, result="Bag[Int]", pure=True,
+      ensures={"len": "len(result) == card(E(self))",
+               "members": "all(implies(count(result, s) >= 1, any(len(fst(k)) + len(snd(k)) == s for k in E(self))) for s in Int)",
+               "covers": "all(count(result, len(fst(k)) + len(snd(k))) >= 1 for k in E(self))"}),
+    C("get_orders", params={}, result="Bag[Int]", pure=True,
+      ensures={"len": "len(result) == card(E(self))",
+               "members": "all(implies(count(result, s) >= 1, any(len(fst(k)) + len(snd(k)) - 1 == s for k in E(self))) for s in Int)",
+               "covers": "all(count(result, len(fst(k)) + len(snd(k)) - 1) >= 1 for k in E(self))"}),
+    C("max_size", params={}, result="Int", pure=True,
+      raises={"ValueError": "card(E(self)) == 0"},
+      ensures={"bound": "all(len(fst(k)) + len(snd(k)) <= result for k in E(self))",
+               "attained": "any(len(fst(k)) + len(snd(k)) == result for k in E(self))"}),
+    C("max_order", params={}, result="Int", pure=True,
+      raises={"ValueError": "card(E(self)) == 0"},
+      ensures={"bound": "all(len(fst(k)) + len(snd(k)) - 1 <= result for k in E(self))",
+               "attained": "any(len(fst(k)) + len(snd(k)) - 1 == result for k in E(self))"}),
+    # sources and targets: one entry per stored hyperedge, each the source (target) tuple of a stored hyperedge
+    C("get_sources", params={}, result="Bag[Tup]", pure=True,
+      ensures={"len": "len(result) == card(E(self))",
+               "members": "all(implies(count(result, s) >= 1, any(fst(k) == s for k in E(self))) for s in Tuple)",
+               "covers": "all(count(result, fst(k)) >= 1 for k in E(self))"}),
+    C("get_targets", params={}, result="Bag[Tup]", pure=True,
+      ensures={"len": "len(result) == card(E(self))",
+               "members": "all(implies(count(result, s) >= 1, any(snd(k) == s for k in E(self))) for s in Tuple)",
+               "covers": "all(count(result, snd(k)) >= 1 for k in E(self))"}),
+    C("degree", params={"node": "Node", "order": "Opt[Int]", "size": "Opt[Int]"}, result="Int", pure=True,
+      requires={"wf": "wf(self)"},
+      raises={"ValueError": "(order is not None and size is not None) or node not in V(self)"},
+      ensures={"result": "result == card({k for k in E(self) if (node in fst(k) or node in snd(k)) and sel(self, k, order, size, False)})"},
+      properties=["C02", "C08"]),
+    Contract(f"{CLS}.get_weights@dict", FILE, [CLS, "get_weights"], self_cls=CLS, properties=["C02"],
+      params={"order": "Opt[Int]", "size": "Opt[Int]", "up_to": "Bool", "asdict": "Bool"}, fixed={"asdict": True},
+      result="Map[Key,Real]", pure=True,
+      requires={"wf": "wf(self)"},
+      raises={"ValueError": "order is not None and size is not None"},
+      ensures={"dom": "all((k in result) == (k in E(self) and sel(self, k, order, size, up_to)) for k in Key)",
+               "val": "all(implies(sel(self, k, order, size, up_to), result[k] == W(self, k)) for k in E(self))"}),
+    C("copy", params={}, result="Obj[DirectedHypergraph]", pure=True, requires={"wf": "wf(self)"},
+      ensures={"wf": "wf(result)", "V": "V(result) == V(self)", "E": "E(result) == E(self)",
+               "W": "all(W(result, k) == W(self, k) for k in E(self))", "M": "all(M(result, k) == M(self, k) for k in E(self))",
+               "NM": "all(NM(result, n) == NM(self, n) for n in V(self))", "weighted": "weighted(result) == weighted(self)",
+               "HM": "HM(result) == HM(self)"},
+      properties=["C02", "C05"]),
+    C("remove_attr_from_node_metadata", params={"node": "Node", "field": "Field"}, requires={"wf": "wf(self)"},
+      raises={"ValueError": "node not in V(self)"},
+      may_raise={"KeyError": "node in V(self) and not mhas(NM(self, node), field)"}, modifies=["_node_metadata"],
+      ensures={"wf": "wf(self)", "NM": "NM(self, node) == mdel(NM(old(self), node), field)",
+               "NM_others": "all(NM(self, n) == NM(old(self), n) for n in V(self) if n != node)"}),
+    # neighbours: every other node sharing a (filtered) hyperedge with the node, whatever the roles
+    C("get_neighbors", params={"node": "Node", "order": "Opt[Int]", "size": "Opt[Int]"}, result="Set[Int]", pure=True,
+      locals={"neigh": "Set[Int]"},
+      requires={"wf": "wf(self)"},
+      raises={"ValueError": "node not in V(self) or (order is not None and size is not None)"},
+      ensures={"result": "all((m in result) == (m != node and any(k in E(self) and (node in fst(k) or node in snd(k)) and (m in fst(k) or m in snd(k)) and sel(self, k, order, size, False) for k in Key)) for m in Node)"},
+      invariants={0: {"neigh": "all((m in neigh) == any(count(_done0, k) >= 1 and (m in fst(k) or m in snd(k)) for k in Key) for m in Node)"},
+                  1: {"neigh": "all((m in neigh) == any(count(_done1, k) >= 1 and (m in fst(k) or m in snd(k)) for k in Key) for m in Node)"}},
+      properties=["C02", "C08"]),
     # ------------------------------------------------------------------ hypergraphx/measures/directed/degree.py (C12)
     Contract("in_degree", "hypergraphx/measures/directed/degree.py", ["in_degree"], properties=["C12"],
       params={"hypergraph": "Obj[DirectedHypergraph]", "node": "Node", "order": "Opt[Int]", "size": "Opt[Int]"}, result="Int", pure=True,
